@@ -96,6 +96,15 @@ func covered(kind string, parts []aggPart, listedSigners []string, goodPay []byt
 // member's secret key, committee size = threshold) yields, whose VRF value must
 // be the one the proof commits to.  ok=false: not a credential for these inputs.
 func (c *Config) trueSeats(m *Member, seed common.Hash, index, step uint32, threshold uint64, proof []byte) (j uint32, ok bool) {
+	return c.trueSeatsIn(c.True, c.True.Rec(m.Name), seed, index, step, threshold, proof)
+}
+
+// trueSeatsIn: the record's true seat count against validator set view.
+func (c *Config) trueSeatsIn(view *SetView, rec *Rec, seed common.Hash, index, step uint32, threshold uint64, proof []byte) (j uint32, ok bool) {
+	if rec == nil {
+		return 0, false
+	}
+	m := rec.M
 	ck := fmt.Sprintf("%s|%x|%d|%d|%x", m.Name, seed, index, step, proof)
 	var h common.Hash
 	if v, hit := c.okCache.Load(ck); hit {
@@ -113,7 +122,7 @@ func (c *Config) trueSeats(m *Member, seed common.Hash, index, step uint32, thre
 		c.okCache.Store(ck, h)
 	}
 	var cr *Cred
-	if msg := mc.Catch(func() { cr = c.Sortition(m, seed, index, step, threshold, m.Stake) }); msg != "" || cr == nil {
+	if msg := mc.Catch(func() { cr = c.SortitionIn(view.Total, m, seed, index, step, threshold, rec.Stake) }); msg != "" || cr == nil {
 		return 0, false // no committee of that size can be drawn (sortition itself fails)
 	}
 	if cr.Value != h {
@@ -134,13 +143,13 @@ func priorityOf(value common.Hash, j uint32) common.Hash {
 	return max
 }
 
-// tally: weight of the listed votes that count.
-func tally(c *Config, entries []ucon.SingleVote, kind string, parts []aggPart, goodPay []byte, seed common.Hash, index, step uint32,
+// tally: weight of the listed votes that count; view is the validator set the protocol draws these votes against.
+func tally(c *Config, view *SetView, entries []ucon.SingleVote, kind string, parts []aggPart, goodPay []byte, seed common.Hash, index, step uint32,
 	threshold uint64, rx relax, tag string, excl map[string]int) (weight uint32, counted []string) {
 	var signers []string
 	for _, e := range entries {
-		if int(e.VoterIdx) < len(c.Members) {
-			signers = append(signers, c.Members[e.VoterIdx].Name)
+		if int(e.VoterIdx) < len(view.Recs) {
+			signers = append(signers, view.Recs[e.VoterIdx].M.Name)
 		} else {
 			signers = append(signers, c.Outsider.Name)
 		}
@@ -148,26 +157,27 @@ func tally(c *Config, entries []ucon.SingleVote, kind string, parts []aggPart, g
 	cov := covered(kind, parts, signers, goodPay)
 	seen := map[int]bool{}
 	for _, e := range entries {
-		if int(e.VoterIdx) >= len(c.Members) {
+		if int(e.VoterIdx) >= len(view.Recs) {
 			excl[tag+"voter index out of range"]++
 			continue
 		}
-		m := c.Members[e.VoterIdx]
+		rec := view.Recs[e.VoterIdx]
+		m := rec.M
 		switch {
-		case !m.Chamber() && !rx.House:
+		case !rec.Chamber() && !rx.House:
 			excl[tag+"house member"]++
 			continue
-		case !m.Online() && !rx.Offline:
+		case !rec.Online() && !rx.Offline:
 			excl[tag+"offline member"]++
 			continue
-		case m.Stake == 0:
+		case rec.Stake == 0:
 			excl[tag+"zero-stake member"]++
 			continue
-		case seen[m.Index]:
+		case seen[rec.Index]:
 			excl[tag+"duplicate"]++
 			continue
 		}
-		tj, ok := c.trueSeats(m, seed, index, step, threshold, e.Proof)
+		tj, ok := c.trueSeatsIn(view, rec, seed, index, step, threshold, e.Proof)
 		if !ok || tj == 0 || e.Votes != tj {
 			excl[tag+"credential invalid under the protocol's committee size"]++
 			continue
@@ -176,7 +186,7 @@ func tally(c *Config, entries []ucon.SingleVote, kind string, parts []aggPart, g
 			excl[tag+"signature not covered by the aggregate"]++
 			continue
 		}
-		seen[m.Index] = true
+		seen[rec.Index] = true
 		weight += tj
 		counted = append(counted, m.Name)
 	}
@@ -264,7 +274,7 @@ func oracleWith(c *Config, f *Forged, rx relax) Verdict {
 	// ---- precommits ----------------------------------------------------------
 	goodPay := VotePayload(h.Hash(), cd.Round, uv.RoundIndex)
 	v.Quorum = uint32(float64(tv) * ucon.ValidatorProportionThreshold)
-	v.Weight, v.Counted = tally(c, uv.ChamberCommitters, f.AggKind, f.AggOf, goodPay, c.LBSeed, uv.RoundIndex, uint32(ucon.Precommit), tv, rx, "", v.Excluded)
+	v.Weight, v.Counted = tally(c, c.True, uv.ChamberCommitters, f.AggKind, f.AggOf, goodPay, c.LBSeed, uv.RoundIndex, uint32(ucon.Precommit), tv, rx, "", v.Excluded)
 	if v.Weight < v.Quorum {
 		reject(fmt.Sprintf("valid precommit weight %d below the protocol quorum %d", v.Weight, v.Quorum))
 	}
@@ -286,7 +296,7 @@ func oracleWith(c *Config, f *Forged, rx relax) Verdict {
 			reject("certificate record undecodable")
 		} else {
 			v.CertQuorum = uint32(float64(tc) * ucon.CertValProportionThreshold)
-			v.CertWeight, _ = tally(c, uc.ChamberCerts, f.CertAggKind, f.CertAggOf, goodPay, f.CertSeed, uv.RoundIndex, uint32(ucon.Certificate), tc, rx, "certificate: ", v.Excluded)
+			v.CertWeight, _ = tally(c, c.CertView, uc.ChamberCerts, f.CertAggKind, f.CertAggOf, goodPay, f.CertSeed, uv.RoundIndex, uint32(ucon.Certificate), tc, rx, "certificate: ", v.Excluded)
 			v.CertOK = v.CertWeight >= v.CertQuorum
 			if !v.CertOK {
 				reject(fmt.Sprintf("valid certificate weight %d below the protocol certificate quorum %d", v.CertWeight, v.CertQuorum))
@@ -397,6 +407,11 @@ func cryptoCheckOne(c *Config, asig []byte, kind string, parts []aggPart, goodPa
 	byName := map[string]*Member{c.Outsider.Name: c.Outsider}
 	for _, m := range c.Members {
 		byName[m.Name] = m
+	}
+	for _, vw := range c.Views {
+		if vw.Newcomer != nil {
+			byName[vw.Newcomer.M.Name] = vw.Newcomer.M
+		}
 	}
 	var pubs []bls.PublicKey
 	allGood := kind == "sum"
